@@ -29,7 +29,9 @@ const (
 	Done
 )
 
-func (s State) String() string { return [...]string{"running", "yield", "parked", "blocked", "done"}[s] }
+func (s State) String() string {
+	return [...]string{"running", "yield", "parked", "blocked", "done"}[s]
+}
 
 type Proc struct {
 	Name   string
@@ -53,17 +55,18 @@ type Event struct {
 }
 
 type Sched struct {
-	mu      sync.Mutex
-	cond    *sync.Cond
-	procs   map[int64]*Proc
-	byName  map[string]*Proc
-	order   []*Proc
-	Namer   func(point string, who any, seq int) string // names goroutines first seen at a hook
-	NonBlocking func(point string) (State, bool)         // points that only announce a state change
-	Log     []Event
-	seq     map[string]int
-	free    bool // pass-through mode (no gating)
-	Timeout time.Duration
+	mu          sync.Mutex
+	cond        *sync.Cond
+	procs       map[int64]*Proc
+	byName      map[string]*Proc
+	order       []*Proc
+	Namer       func(point string, who any, seq int) string // names goroutines first seen at a hook
+	NonBlocking func(point string) (State, bool)            // points that only announce a state change (Running = just log)
+	OnPoint     func(proc string, point string, n int64)    // called (under the scheduler mutex) at every hook arrival
+	Log         []Event
+	seq         map[string]int
+	free        bool // pass-through mode (no gating)
+	Timeout     time.Duration
 }
 
 func New() *Sched {
@@ -155,15 +158,21 @@ func (s *Sched) hook(point string, who any, n int64) {
 		}
 		p = s.register(id, name)
 	}
-	p.Point, p.N, p.Who = point, n, who
+	if s.OnPoint != nil {
+		s.OnPoint(p.Name, point, n)
+	}
 	if s.NonBlocking != nil {
 		if st, nb := s.NonBlocking(point); nb {
-			p.State = st
+			if st != Running {
+				p.Point, p.N, p.Who = point, n, who
+				p.State = st
+			}
 			s.cond.Broadcast()
 			s.mu.Unlock()
 			return
 		}
 	}
+	p.Point, p.N, p.Who = point, n, who
 	p.State = AtYield
 	s.cond.Broadcast()
 	s.mu.Unlock()
@@ -192,7 +201,7 @@ var stackHdr = regexp.MustCompile(`^goroutine (\d+) \[([^\],]+)`)
 // blockedStatus reports goroutine id -> wait reason for goroutines blocked in the runtime OUTSIDE
 // this package (a goroutine waiting for the scheduler's own mutex is about to change state and
 // counts as running).
-func blockedStatus() map[int64]string {
+func blockedStatus() (map[int64]string, map[int64]bool) {
 	buf := make([]byte, 1<<20)
 	for {
 		n := runtime.Stack(buf, true)
@@ -203,12 +212,14 @@ func blockedStatus() map[int64]string {
 		buf = make([]byte, 2*len(buf))
 	}
 	out := map[int64]string{}
+	alive := map[int64]bool{}
 	for _, g := range bytes.Split(buf, []byte("\n\n")) {
 		m := stackHdr.FindSubmatch(g)
 		if m == nil {
 			continue
 		}
 		id, _ := strconv.ParseInt(string(m[1]), 10, 64)
+		alive[id] = true
 		st := string(m[2])
 		switch st {
 		case "chan receive", "chan send", "select", "select (no cases)", "sync.Mutex.Lock", "sync.RWMutex.Lock",
@@ -226,7 +237,7 @@ func blockedStatus() map[int64]string {
 			// running, runnable, syscall, preempted, copystack, GC ...: not blocked
 		}
 	}
-	return out
+	return out, alive
 }
 
 // Quiesce waits until no scheduled goroutine can run: each is at a yield point, done, or really
@@ -260,13 +271,16 @@ func (s *Sched) Quiesce() error {
 			time.Sleep(10 * time.Microsecond)
 			continue
 		}
-		bl := blockedStatus()
+		bl, alive := blockedStatus()
 		stable := true
 		s.mu.Lock()
 		for _, p := range s.order {
 			switch p.State {
 			case Running:
-				if _, ok := bl[p.Goid]; ok {
+				if !alive[p.Goid] {
+					p.State = Done // the goroutine has returned
+					p.Point = ""
+				} else if _, ok := bl[p.Goid]; ok {
 					p.State = Blocked
 				} else {
 					stable = false
